@@ -310,3 +310,60 @@ Section Invariant.
       apply (IH s1 s'); [eapply step_inv; eassumption|exact Ht|exact H].
   Qed.
 End Invariant.
+
+(* ------------------------------------------------------------------ the same with a premise on client calls *)
+Definition hon_label2 (HonW : env -> nat -> woracle -> worker -> Prop) (OkC : client -> Prop) (s : sys) (l : mlabel) : Prop :=
+  match l with
+  | MClient c => OkC c
+  | _ => hon_label HonW s l
+  end.
+Definition clients_ok (OkC : client -> Prop) (sigma : list sched_action) : Prop :=
+  Forall (fun a => match a with X c => OkC c | _ => True end) sigma.
+
+Section Invariant2.
+  Variable Inv : sys -> Prop.
+  Variable HonW : env -> nat -> woracle -> worker -> Prop.
+  Variable OkC : client -> Prop.
+  Hypothesis Hstep : forall s l s', Inv s -> mstep s l s' -> hon_label2 HonW OkC s l -> Inv s'.
+
+  Lemma msteps_inv2 : forall s ls s', msteps s ls s' -> Inv s ->
+    Forall (fun l => match l with MExec _ _ | MClient _ => False | _ => True end) ls -> Inv s'.
+  Proof.
+    intros s ls s' M. induction M as [|s l s1 ls s2 Hs Hr IH]; intros HI F; [exact HI|].
+    inversion F as [|x y F1 F2]; subst. apply IH; [|exact F2].
+    eapply Hstep; [exact HI|exact Hs|]. destruct l; simpl; auto; contradiction.
+  Qed.
+
+  Lemma step_inv2 s a s' : Inv s -> hon_step HonW s a -> match a with X c => OkC c | _ => True end -> sys_step s a = Good s' -> Inv s'.
+  Proof.
+    intros HI Hh Hc H. destruct a as [i k o|ks|d|c].
+    - destruct s as [ns e clk]. simpl in H, Hh.
+      destruct (nth_error ns i) as [nd|] eqn:Ei; [|inversion H; subst; exact HI].
+      destruct (node_step i clk k o nd) as [nd'|] eqn:Es; cbn [rbind] in H; [|discriminate].
+      inversion H; subst s'; clear H.
+      destruct (node_step_msteps ns e clk i k o nd nd' Ei Es) as (w1&e1&s1&E1&M1&Es1&M2).
+      rewrite E1 in Hh.
+      assert (I1: Inv s1).
+      { eapply msteps_inv2; [exact M1|exact HI|]. apply Forall_forall. intros x Hx. apply repeat_spec in Hx. subst x. exact I. }
+      inversion M2 as [|sa l sb ls sc Ha Hb]; subst.
+      inversion Hb as [|sa' l' sb' ls' sc' Ha' Hb']; subst. inversion Hb'; subst.
+      assert (I2: Inv sb).
+      { eapply Hstep; [exact I1|exact Ha|]. simpl. intros nd1 Hn1.
+        rewrite (nth_set_node_same _ _ _ _ Ei) in Hn1. inversion Hn1; subst nd1. simpl. exact Hh. }
+      eapply Hstep; [exact I2|exact Ha'|exact I].
+    - destruct (env_step_msteps s ks s' H) as (ls&M&F).
+      eapply msteps_inv2; [exact M|exact HI|]. eapply Forall_impl; [|exact F]. intros x (j&->). exact I.
+    - destruct s as [ns e clk]. simpl in H. inversion H; subst s'.
+      eapply Hstep; [exact HI|apply ms_time|exact I].
+    - simpl in H. eapply Hstep; [exact HI|apply ms_client; exact H|exact Hc].
+  Qed.
+
+  Theorem micro_invariant2 : forall sigma s s', Inv s -> hon_run HonW s sigma -> clients_ok OkC sigma -> run s sigma = Good s' -> Inv s'.
+  Proof.
+    induction sigma as [|a sigma IH]; intros s s' HI Hh Hc H; simpl in H.
+    - inversion H; subst. exact HI.
+    - simpl in Hh. destruct Hh as (Ha&Ht). inversion Hc as [|x y C1 C2]; subst.
+      destruct (sys_step s a) as [s1|] eqn:E; cbn [rbind] in H; [|discriminate].
+      apply (IH s1 s'); [eapply step_inv2; eassumption|exact Ht|exact C2|exact H].
+  Qed.
+End Invariant2.
